@@ -81,6 +81,9 @@ def error_to_idle(ck, F, E):
             through = all(not _reaches_avoiding(pp, t, r, {c.bb for c in calls}) for r in rets)
             if through:
                 ok = True
+    from lib import err_arm_passes
+    if not ok and err_arm_passes(F, pp, "Interpreter::return_to_idle_state"):
+        ok = True                                         # `result.map_err(|e| { ..; self.return_to_idle_state(); e })`
     ck.require(ok, "C01:IDLE:postprocess-err-arm", "errors lead to Idle",
                "every path through the Err arm of postprocess_result calls return_to_idle_state",
                "an error can leave postprocess_result without the interpreter returning to Idle: the next "
@@ -103,7 +106,8 @@ def error_to_idle(ck, F, E):
             if sfx(c.callee, "Interpreter::run_next_statement"):
                 # on an emptied immediate line the stepper has nothing to run and no next line: it returns to Idle
                 # (INV-EMPTY-IMMEDIATE, the invariant that also discharges the unwrap of its result)
-                emptied = [x for x in b.calls_to("Program::set_and_goto_immediate_line") if b.dominates(x.bb, c.bb)]
+                from lib import immediate_line_emptied_by
+                emptied = [x for x in immediate_line_emptied_by(F, b) if b.dominates(x.bb, c.bb)]
                 from lib import deep_calls
                 if emptied and any(sfx(y.callee, "Interpreter::return_to_idle_state")
                                    for (_ob, y) in deep_calls(F, cb, lambda p: p.startswith("abasic_core::interpreter::"), depth=2)):
